@@ -24,7 +24,7 @@ CHECKS = {
          "symbolic execution of go/ssa + SMT strings — solver verdict over all names within bounds", "§5 C12"),
 }
 
-KNOTE = "trusted: go/ssa, the interpreter fork, the filesystem stubs of DESIGN §4 (each os call fails without effect or has its POSIX effect; Rename atomic; crash = nothing further applied), embed.FS read from the working tree; counterexamples are paths of the model filesystem (native fault-injection replay not built yet: a VIOLATION carries the operation trace)"
+KNOTE = "trusted: go/ssa, the interpreter fork, the filesystem stubs of DESIGN §4 (each os call fails without effect or has its POSIX effect; Rename atomic; crash = nothing further applied), embed.FS read from the working tree; C15 counterexamples are replayed natively (install.go compiled with its os calls routed through a fault-injection shim; the installer process is killed at the crash step / the step fails) and the stubs are validated against the real OS on a sample of model paths; C16 counterexamples carry the operation trace of the model"
 CHECKS["C15"] = ("other", "symbolic execution of the real Install/InstallFile (go/ssa incl. deferred cleanup) with crash position and failing step as symbolic integers decided by z3: every crash point between/inside the filesystem steps and every single injected fault over the whole embedded tree is covered path-completely; per path the model filesystem must show every destination untouched or complete with mode 0644, failures reported, no temp file left, fault-free run complete", KNOTE, "symbolic execution of go/ssa with a nondeterministic filesystem stub; crash/fault positions are solver-decided symbolic integers", "§5 C15")
 CHECKS["C16"] = ("other", "symbolic execution of the real Install/ResolvePath/ValidatePath and agent methods for all 9 agents with --path, $HOME and cwd as symbolic strings: every mutating filesystem event is proved (unsat str.prefixof query) to lie under <base>/<skill name> with base taken from the README table parsed at check time; installed tree = on-disk skill tree; registry = kong sub-commands = README list", KNOTE, "symbolic execution of go/ssa with symbolic path strings; SMT string prefix/equality queries (portfolio)", "§5 C16")
 
